@@ -882,6 +882,16 @@ func (r *vC18Run) countRecords() int {
 	return k
 }
 
+// Raft index of the newest PUBLISH_ACTIVITY entry read so far (0 = none)
+func (r *vC18Run) lastRecordPos() uint64 {
+	for i := len(r.rlog) - 1; i >= 0; i-- {
+		if r.rlog[i].K == "P" {
+			return uint64(i + 1)
+		}
+	}
+	return 0
+}
+
 // lastPublished as replicated: pi of the last PUBLISH_ACTIVITY entry
 func (r *vC18Run) lastRecorded() int64 {
 	for i := len(r.rlog) - 1; i >= 0; i-- {
@@ -982,8 +992,8 @@ func (r *vC18Run) step(step map[string]interface{}) (ev vC18Event) {
 		n := r.node(step)
 		focus = n
 		// the step is over when the record has been COMMITTED AND APPLIED (one more
-		// PUBLISH_ACTIVITY entry in the log store and the in-memory lastPublished is what
-		// it names) or has failed - whatever the dispatcher believed it had published
+		// PUBLISH_ACTIVITY entry in the log store, applied by the FSM - whatever that
+		// makes of it) or has failed - whatever the dispatcher believed it had published
 		r.state(n)
 		pBefore := r.countRecords()
 		before := atomic.LoadInt64(&n.recFails)
@@ -995,7 +1005,7 @@ func (r *vC18Run) step(step map[string]interface{}) (ev vC18Event) {
 				return true
 			}
 			r.readRaftLog(n)
-			return r.countRecords() > pBefore && int64(n.srv.activity.LastPublishedRaftIndex()) == r.lastRecorded()
+			return r.countRecords() > pBefore && n.srv.getRaft().AppliedIndex() >= r.lastRecordPos()
 		})
 	case "RecordFail":
 		// only reachable for a dispatcher whose server lost the leadership
